@@ -31,3 +31,12 @@ func VxSheet(rules ...VxRule) CSS {
 	}
 	return CSS{matcher: m}
 }
+
+// VxPageSheet is a style sheet with one @page rule matching every page.
+func VxPageSheet(decls ...VxDecl) CSS {
+	var ds []validation.Declaration
+	for _, d := range decls {
+		ds = append(ds, validation.Declaration{Name: pr.PropKey{KnownProp: d.Prop}, Value: d.Value})
+	}
+	return CSS{pageRules: []PageRule{{selectors: []selectorPageRule{{}}, declarations: ds}}}
+}
